@@ -3,6 +3,7 @@
 // for translator validation the call is evaluated with the REAL planes (p, M) at double / float).
 #include <math.h>
 #include "sym.h"
+#include "c10frac.h" // FracS: Vec::length at exact fractions so that lean_tv covers the entries calling it
 #include "shapes.h"
 #include "main.h"
 // `0.5 * (Zp + 1) * zdiff` (DepthToZ): Sym * long would be ambiguous between the int / double / float overloads of sym.h
